@@ -23,7 +23,7 @@ SHARD_DEADLINE = {'quick': 300, 'thorough': 3300}
 def floors(tier):
     return {'distinct_nontrivial': 6000 if tier == 'quick' else 60000, 'generic_executions': 3000,
             'numeric_reexecutions': 200, 'permuted_order_cases': 200, 'empty_operand_cases': 20,
-            'distinct_generated_functions': 2500, 'cse_false_cases': 100, 'wrapper_configured_cases': 300, 'graded_mode_cases': 80, 'paired_configuration_units': 6}
+            'distinct_generated_functions': 2500, 'cse_false_cases': 100, 'wrapper_configured_cases': 300, 'graded_mode_cases': 80, 'paired_configuration_units': 6, 'short_lived_key_tuple_cases': 300}
 
 
 def plan(tier, seed):
@@ -62,6 +62,9 @@ def plan(tier, seed):
             U += [dict(unit_, pair_with=b_, pseed=rng.randrange(10 ** 9)) for unit_ in u(a_, 'sparse', 1, count=60, cap=5, perm=0.2)]
         for s in (0, 2):
             U += u({'p': 2, 'q': 1, 'r': 0, 'start_index': s}, 'random', 1, count=40, cap=8)
+        for c in ({'p': 3, 'q': 0, 'r': 0}, {'p': 2, 'q': 0, 'r': 1}, {'p': 3, 'q': 1, 'r': 0}, {'p': 1, 'q': 1, 'r': 1}):
+            for size in (1, 2, 3):
+                U += u(c, 'fresh_vs_fixed', 1, count=60, size=size)
         for c in ({'p': 2, 'q': 0, 'r': 1}, {'p': 1, 'q': 1, 'r': 1}, {'p': 3, 'q': 0, 'r': 0}, {'p': 1, 'q': 0, 'r': 2}):
             U += u(dict(c, opts={'graded': True}), 'gradeblocks', 1, count=40, cap=8)
         for c, w in zip(rng.sample(d2, 3) + rng.sample(d3, 3), ('wraps', 'identity') * 3):
@@ -146,6 +149,8 @@ def run_shard(shard, ctx):
             cid = [name, list(kx), list(ky)]
             if not ctx.want(cid):
                 continue
+            if unit['fam'] == 'fresh_vs_fixed':
+                ctx.count('short_lived_key_tuple_cases')
             cached_before = (kx, ky) in alg.gp
             st, r = ops.check_generic(ctx, alg, iso, cfg, 'gp', (kx, ky), cid)
             if st in ('timeout', 'raised'):
